@@ -141,6 +141,7 @@ class Ctx:
         # clock
         self.now = 1_000 * SEC          # ns, arbitrary non-zero origin
         self.mono_offset = -997 * SEC   # monotonic() epoch differs from time()
+        self.wall_offset = 0            # ns added to time.time() only: a stepped wall clock (NTP, operator)
         self.heap = []
         self.seq = 0
         self.steps = 0
